@@ -379,6 +379,17 @@ func c15Run(c *ev.Ctx) {
 // c15Sched: the concurrent Writer with a failing sink under the controlled scheduler: every
 // fault point of the small scenarios explored over all schedules within preemption bound 1.
 func c15Sched(c *ev.Ctx) {
+	bound := 1
+	if c.Thorough() {
+		bound = 2
+	}
+	for _, sc := range c15SchedScenarios() {
+		exploreScenario(c, sc, bound)
+	}
+}
+
+func c15SchedScenarios() []*Scenario {
+	var out []*Scenario
 	a, b := payload('A', 17), payload('N', 29)
 	big := make([]byte, 65537)
 	wr := func(d []byte) writerStep { return writerStep{Op: "write", Data: d} }
@@ -387,10 +398,6 @@ func c15Sched(c *ev.Ctx) {
 		{Name: "F-bsum", Conc: 2, Opts: []lz4.Option{lz4.BlockChecksumOption(true)}, Steps: []writerStep{wr(a), {Op: "flush"}, wr(b), {Op: "close"}}},
 		{Name: "F-big", Conc: 2, Steps: []writerStep{wr(big), {Op: "close"}}},
 		{Name: "F-readfrom", Conc: 2, Steps: []writerStep{{Op: "readfrom", Data: big}, {Op: "close"}}},
-	}
-	bound := 1
-	if c.Thorough() {
-		bound = 2
 	}
 	for _, base := range bases {
 		n := countSinkCalls(base)
@@ -401,13 +408,13 @@ func c15Sched(c *ev.Ctx) {
 				p.Name = fmt.Sprintf("%s-k%d-p%v", base.Name, k, partial)
 				sc := writerScenario(&p)
 				sc.Soft = nil // "still running after Close" is C08's clause
-				st := exploreScenario(c, sc, bound)
-				_ = st
+				out = append(out, sc)
 			}
 		}
 	}
 	_ = verifsched.Active
 	_ = strings.Join
+	return out
 }
 
 func init() {
@@ -417,6 +424,8 @@ func init() {
 			"reader side: every one of the 49 source fragmentation patterns (cycles of length <=2 over {1,2,3,7,all,zero-length-then-data,data together with io.EOF}), then for every k up to the number of source calls (full-read and 1-byte patterns) the k-th Read fails with (0 bytes, err) and (3 bytes, err), sticky; Reader concurrency {1,2} x Read/WriteTo. Deviation bounding: 0, 1 (one fault or one non-default fragmentation), 2 (fault under the 1-byte fragmentation). distinct_nontrivial = fault points and fragmentation runs.",
 		Assumptions: []string{"a sink or source that has failed keeps failing", "sinks that accept a write and fail later are not expressible through io.Writer"},
 		Alt:         []string{"sched"},
+		ReplayIn:    "sched",
+		ReplayInIf:  func(raw []byte) bool { return bytes.Contains(raw, []byte(`"scenario"`)) },
 		Run:         c15Run,
 		Replay: func(c *ev.Ctx) {
 			// replays carry either a writer or a reader case
@@ -451,7 +460,7 @@ func init() {
 			}
 			var ks schedCase
 			if err := json.Unmarshal(c.ReplayRaw, &ks); err == nil && ks.Scenario != "" {
-				c.Machinery("scheduler replays of C15 run through ./vcheck --replay with the sched binary (scenario %s)", ks.Scenario)
+				replayScenario(c, c15SchedScenarios())
 			}
 		},
 	})
